@@ -366,6 +366,8 @@ Section NoOverflow.
     use (lw_ne x ll lp lq) Hl. exact Hl.
   Qed.
 
+  (* Proved element-wise (membership in the concatenation), so the statement does not depend on the ORDER in which the source
+     evaluates its exponentials, nor on how it names the intermediate values. *)
   Lemma no_overflow_ess :
     Forall (fun t => t <= ln (vlen ll)) (compute_weights_ess_expargs x ll lp lq).
   Proof.
@@ -375,18 +377,20 @@ Section NoOverflow.
     unfold compute_weights_ess_expargs. cbv zeta.
     set (lw := vmap2 Rminus (vmap2 Rplus ll lp) lq).
     set (lw' := map (fun t_ => Rminus t_ (vmax lw)) lw).
-    apply Forall_app_intro; [|apply Forall_app_intro].
-    - constructor; [|constructor].
-      use (cw_ess_bounds x ll lp lq) Hb. destruct Hb as [_ Hub].
+    set (e := Rminus (Rmult (logsumexp lw') 2) (logsumexp (map (fun t_ => Rmult t_ 2) lw'))).
+    assert (He : e <= ln (vlen ll)).
+    { use (cw_ess_bounds x ll lp lq) Hb. destruct Hb as [_ Hub].
       rewrite cw_ess_fn in Hub. cbv zeta in Hub. unfold effective_sample_size in Hub.
       change (compute_weights_log_w x ll lp lq) with lw in Hub.
-      change (map (fun t => t - vmax lw) lw) with lw' in Hub.
-      set (e := Rminus (Rmult (logsumexp lw') 2) (logsumexp (map (fun t_ => Rmult t_ 2) lw'))) in *.
+      change (map (fun t => t - vmax lw) lw) with lw' in Hub. fold e in Hub.
       rewrite <- (ln_exp e). destruct (Rle_lt_or_eq_dec _ _ Hub) as [Hlt|Heq].
-      + left. apply ln_increasing; [apply exp_pos| exact Hlt].
-      + rewrite Heq. lra.
-    - apply Forall_le_weaken; auto. apply logsumexp_expargs_nonpos.
-    - apply Forall_le_weaken; auto. apply logsumexp_expargs_nonpos.
+      - left. apply ln_increasing; [apply exp_pos| exact Hlt].
+      - rewrite Heq. lra. }
+    apply Forall_forall. intros t Ht.
+    repeat (apply in_app_or in Ht; destruct Ht as [Ht|Ht]);
+      try (destruct Ht as [<-|[]]; exact He);
+      try (pose proof (logsumexp_expargs_nonpos lw') as Hnp; rewrite Forall_forall in Hnp; specialize (Hnp t Ht); lra);
+      try (pose proof (logsumexp_expargs_nonpos (map (fun t_ => Rmult t_ 2) lw')) as Hnp; rewrite Forall_forall in Hnp; specialize (Hnp t Ht); lra).
   Qed.
 End NoOverflow.
 
